@@ -65,6 +65,27 @@ def r4_1(repo: Repo, rule: str = "R4.1") -> RuleResult:
             arg0 = norm(bound0)
             construct = "%s(%s, ...)" % (hit[0].name, arg0)
             if isinstance(st, ast.Assign) and st.value is call and len(st.targets) == 1 and norm(st.targets[0]) == arg0:
+                # a local that stands in for a slot of a container of accumulators (`acc = accs[i]`) must be written
+                # back to that slot in the block that loaded it - i.e. for every i, not only for the last one
+                lost = None
+                if isinstance(bound0, ast.Name):
+                    for ld in walk_no_nested(caller.node):
+                        if isinstance(ld, ast.Assign) and len(ld.targets) == 1 and isinstance(ld.targets[0], ast.Name) and ld.targets[0].id == arg0 \
+                                and isinstance(ld.value, ast.Subscript) and ld.lineno < call.lineno:
+                            holder = pm.get(id(ld))
+                            blk = next((b for fld in ("body", "orelse", "finalbody") for b in [getattr(holder, fld, None)]
+                                        if isinstance(b, list) and any(x is ld for x in b)), None)
+                            slot = norm(ld.value)
+                            back = [x for x in (blk or []) if isinstance(x, ast.Assign) and x.lineno > call.lineno and norm(x.targets[0]) == slot
+                                    and norm(x.value) == arg0]
+                            if not back:
+                                lost = (slot, ld.lineno)
+                if lost:
+                    rr.bad(caller, construct,
+                           "`%s` stands in for `%s` (loaded at line %d) and is re-bound by %s, but it is not stored back to `%s` in the block that "
+                           "loaded it: after a buffer growth the container keeps the old arrays for every slot but the last one written back"
+                           % (arg0, lost[0], lost[1], hit[0].name, lost[0]), call.lineno)
+                    continue
                 rr.ok(caller, construct, "`%s = %s(%s, ...)`" % (arg0, hit[0].name, arg0), call.lineno)
             elif isinstance(st, ast.Return) and st.value is call:
                 rr.ok(caller, construct, "returned to the caller", call.lineno)
